@@ -247,6 +247,8 @@ fn corruptions(ctx: &Ctx, acc: &mut Acc, c: &CodecCase, valid: &str) -> u64 {
     let chars: Vec<char> = valid.chars().collect();
     let mut subs: Vec<char> = CHARSET.iter().map(|b| *b as char).collect();
     subs.extend(['1', 'b', 'i', 'o', 'B', '_', ' ']);
+    // characters of two, three and four bytes (the helpers must stay total: reject, not panic)
+    subs.extend(['é', '\u{212a}', '\u{1f600}']);
     for pos in 0..chars.len() {
         let mut cand: Vec<char> = subs.clone();
         let orig = chars[pos];
